@@ -9,6 +9,7 @@ import (
 	"go/token"
 	"go/types"
 	"log/slog"
+	"os"
 	"path/filepath"
 	"sort"
 	"strconv"
@@ -208,6 +209,10 @@ func (p *Parser) initializePackages(filename string) (*packages.Package, error) 
 		Fset: p.fset,
 	}
 
+	// A previous output of this file that no longer parses (cut off or zero-filled by a crash) must not
+	// keep the package from loading: it is about to be rewritten, so it is loaded as an empty file.
+	cfg.Overlay = damagedOutputOverlay(filename)
+
 	// Load the specific file and its dependencies
 	pkgs, err := packages.Load(cfg, "file="+filename)
 	if err != nil {
@@ -241,6 +246,28 @@ func (p *Parser) initializePackages(filename string) (*packages.Package, error) 
 	}
 
 	return nil, errors.New("file is not in the same package")
+}
+
+// damagedOutputOverlay returns an overlay that replaces the existing output file of filename by an
+// empty file of the same package when that output file does not parse; nil otherwise.
+func damagedOutputOverlay(filename string) map[string][]byte {
+	outputPath, err := filepath.Abs(outputFileName(filename))
+	if err != nil {
+		return nil
+	}
+	content, err := os.ReadFile(outputPath)
+	if err != nil {
+		return nil
+	}
+	if _, err := parser.ParseFile(token.NewFileSet(), outputPath, content, parser.SkipObjectResolution); err == nil {
+		return nil
+	}
+	source, err := parser.ParseFile(token.NewFileSet(), filename, nil, parser.PackageClauseOnly)
+	if err != nil || source.Name == nil {
+		return nil
+	}
+
+	return map[string][]byte{outputPath: []byte("package " + source.Name.Name + "\n")}
 }
 
 // FindInjectDirectives finds all kessoku.Inject calls in the AST.
